@@ -56,21 +56,23 @@ Qed.
 (* yaml.Node -> CandidateNode -> yaml.Node                             *)
 (* ------------------------------------------------------------------ *)
 
-Definition norm_child (c : ynode) : ynode :=
-  if str_eqb (y_tag c) t_null then scalarize c else norm c.
+Definition norm_child (c : ynode) : ynode := norm c.
 
 Definition rt_ok (n : ynode) : Prop :=
   forall ik key c, ywf n = true -> from_y ik key n = Some c -> to_y c = norm n.
 
-Lemma to_y_scalar_copy c0 ik key : to_y (copy_from CScalar c0 ik key []) = scalarize c0.
-Proof. destruct c0. cbn. rewrite style_rt. reflexivity. Qed.
+Lemma to_y_scalar_copy c0 ik key : is_yscalar c0 = true -> to_y (copy_from CScalar c0 ik key []) = norm c0.
+Proof.
+  destruct c0 as [k s t v a al h l f ln col content]. unfold is_yscalar. cbn [y_kind].
+  destruct k; try discriminate. intros _. cbn. rewrite style_rt. reflexivity.
+Qed.
 
 Lemma child_rt c0 ik key c' : rt_ok c0 -> ywf c0 = true ->
   decode_child from_y ik key c0 = Some c' -> to_y c' = norm_child c0.
 Proof.
   intros Hrt Hwf H. unfold decode_child in H. unfold norm_child.
-  destruct (str_eqb (y_tag c0) t_null).
-  - injection H as <-. apply to_y_scalar_copy.
+  destruct (str_eqb (y_tag c0) t_null && is_yscalar c0) eqn:E.
+  - injection H as <-. apply andb_true_iff in E as [_ E]. apply to_y_scalar_copy. exact E.
   - apply (Hrt ik key c' Hwf H).
 Qed.
 
@@ -126,7 +128,7 @@ Definition total_ok (n : ynode) : Prop :=
 
 Lemma child_total c0 ik key : total_ok c0 -> ywf c0 = true -> exists c', decode_child from_y ik key c0 = Some c'.
 Proof.
-  intros Ht Hwf. unfold decode_child. destruct (str_eqb (y_tag c0) t_null); [eexists; reflexivity|apply Ht; exact Hwf].
+  intros Ht Hwf. unfold decode_child. destruct (str_eqb (y_tag c0) t_null && is_yscalar c0); [eexists; reflexivity|apply Ht; exact Hwf].
 Qed.
 
 Lemma seq_items_total : forall l i, Forall total_ok l -> forallb ywf l = true -> exists cs, seq_items from_y i l = Some cs.
@@ -157,20 +159,13 @@ Proof.
   - apply andb_true_iff in Hwf as [_ Hwf]. destruct (map_pairs_total content IH Hwf) as (cs & ->). eexists; reflexivity.
 Qed.
 
-(* norm is the identity on trees without alias pointers and without a
-   collection child tagged !!null *)
+(* norm is the identity on well-shaped trees without alias pointers *)
 Fixpoint norm_free (n : ynode) : bool :=
   match n with
   | YNode k _ _ _ _ al _ _ _ _ _ content =>
       match al with None => true | Some _ => false end
       && match k with
-         | YSequence | YMapping =>
-             forallb (fun c => norm_free c
-                               && (negb (str_eqb (y_tag c) t_null)
-                                   || match c with
-                                      | YNode YScalar _ _ _ _ _ _ _ _ _ _ [] => true
-                                      | _ => false
-                                      end)) content
+         | YSequence | YMapping => forallb norm_free content
          | _ => match content with [] => true | _ => false end
          end
   end.
@@ -180,21 +175,11 @@ Proof.
   induction n as [k s t v a al h l f ln col content IH] using ynode_ind'.
   intro H. cbn [norm_free] in H. apply andb_true_iff in H as [Hal Hc].
   destruct al; [discriminate|]. cbn [norm]. f_equal.
-  destruct k; try (destruct content; [reflexivity|discriminate]).
-  - induction content as [|c r IHr]; [reflexivity|].
+  assert (Hmap : forallb norm_free content = true -> map norm content = content).
+  { clear Hc. intro Hc. induction content as [|c r IHr]; [reflexivity|].
     inversion IH as [|? ? Hc0 Hr]; subst. cbn [forallb] in Hc. apply andb_true_iff in Hc as [H0 Hrest].
-    apply andb_true_iff in H0 as [Hn0 Hs0]. cbn [map]. rewrite (IHr Hr Hrest). f_equal.
-    destruct (str_eqb (y_tag c) t_null) eqn:Et.
-    + cbn [negb orb] in Hs0. destruct c as [k0 ? ? ? ? al0 ? ? ? ? ? c0]. destruct k0; try discriminate.
-      destruct c0; [|discriminate]. cbn [norm_free] in Hn0. destruct al0; [discriminate|]. reflexivity.
-    + apply Hc0. exact Hn0.
-  - induction content as [|c r IHr]; [reflexivity|].
-    inversion IH as [|? ? Hc0 Hr]; subst. cbn [forallb] in Hc. apply andb_true_iff in Hc as [H0 Hrest].
-    apply andb_true_iff in H0 as [Hn0 Hs0]. cbn [map]. rewrite (IHr Hr Hrest). f_equal.
-    destruct (str_eqb (y_tag c) t_null) eqn:Et.
-    + cbn [negb orb] in Hs0. destruct c as [k0 ? ? ? ? al0 ? ? ? ? ? c0]. destruct k0; try discriminate.
-      destruct c0; [|discriminate]. cbn [norm_free] in Hn0. destruct al0; [discriminate|]. reflexivity.
-    + apply Hc0. exact Hn0.
+    cbn [map]. rewrite (Hc0 H0), (IHr Hr Hrest). reflexivity. }
+  destruct k; try (destruct content; [reflexivity|discriminate]); apply Hmap; exact Hc.
 Qed.
 
 (* ------------------------------------------------------------------ *)
@@ -269,40 +254,43 @@ Proof.
   cbn [app comment_re]. rewrite H35, Hsp. apply IH. exact Hr.
 Qed.
 
-Lemma first4 {A} (s : list A) : (4 <= length s)%nat -> exists a b c d t, s = a :: b :: c :: d :: t.
+Lemma window_comment pre t : (length pre <= 3)%nat -> forallb is_hsp pre = true ->
+  comment_re (firstn 4 (pre ++ 35 :: t)) = true.
 Proof.
-  destruct s as [|a [|b [|c [|d t]]]]; cbn; intro H; try lia. repeat eexists.
+  intros Hlen Hpre.
+  destruct pre as [|p1 [|p2 [|p3 [|p4 pre']]]]; cbn [length] in Hlen; try lia; cbn [forallb] in Hpre.
+  - reflexivity.
+  - apply andb_true_iff in Hpre as [H1 _]. destruct (hsp_facts p1 H1) as (_ & A35 & _ & _ & Asp).
+    cbn [app firstn comment_re]. rewrite A35, Asp. reflexivity.
+  - apply andb_true_iff in Hpre as [H1 Hpre]. apply andb_true_iff in Hpre as [H2 _].
+    destruct (hsp_facts p1 H1) as (_ & A35 & _ & _ & Asp). destruct (hsp_facts p2 H2) as (_ & B35 & _ & _ & Bsp).
+    cbn [app firstn comment_re]. rewrite A35, Asp, B35, Bsp. reflexivity.
+  - apply andb_true_iff in Hpre as [H1 Hpre]. apply andb_true_iff in Hpre as [H2 Hpre]. apply andb_true_iff in Hpre as [H3 _].
+    destruct (hsp_facts p1 H1) as (_ & A35 & _ & _ & Asp). destruct (hsp_facts p2 H2) as (_ & B35 & _ & _ & Bsp).
+    destruct (hsp_facts p3 H3) as (_ & C35 & _ & _ & Csp).
+    cbn [app firstn comment_re]. rewrite A35, Asp, B35, Bsp, C35, Csp. reflexivity.
 Qed.
 
-(* the decision on a comment line followed by enough bytes *)
-Lemma classify_comment pre txt rest :
-  (length pre <= 3)%nat -> forallb is_hsp pre = true -> (3 <= length rest)%nat ->
-  classify (pre ++ 35 :: txt ++ 10 :: rest) = Line.
+(* first byte of a comment line: horizontal white space or the hash *)
+Lemma comment_head pre t : forallb is_hsp pre = true ->
+  exists a r, pre ++ 35 :: t = a :: r /\ (a =? 10) = false /\ (a =? 45) = false /\ (a =? 36) = false.
 Proof.
-  intros Hlen Hpre Hrest.
-  assert (Hlong : le 4%nat (length (35 :: txt ++ 10 :: rest))).
-  { cbn [length]. rewrite app_length. cbn [length]. lia. }
-  destruct pre as [|p1 [|p2 [|p3 [|p4 pre']]]]; cbn [length] in Hlen; try lia; cbn [forallb] in Hpre.
-  - destruct (first4 _ Hlong) as (a & b & c & d & t & E). cbn [app]. rewrite E.
-    injection E as <- _. reflexivity.
-  - apply andb_true_iff in Hpre as [H1 _]. destruct (hsp_facts p1 H1) as (A10 & A35 & A45 & A37 & Asp).
-    assert (Hl2 : le 3%nat (length (txt ++ 10 :: rest))) by (rewrite app_length; cbn [length]; lia).
-    destruct (txt ++ 10 :: rest) as [|b [|c [|d t]]] eqn:E; cbn [length] in Hl2; try lia.
-    cbn [app]. unfold classify. rewrite A10, A45. cbn [andb].
-    cbn [comment_re]. rewrite A35, Asp. reflexivity.
-  - apply andb_true_iff in Hpre as [H1 Hpre]. apply andb_true_iff in Hpre as [H2 _].
-    destruct (hsp_facts p1 H1) as (A10 & A35 & A45 & A37 & Asp).
-    destruct (hsp_facts p2 H2) as (B10 & B35 & B45 & B37 & Bsp).
-    assert (Hl2 : le 2%nat (length (txt ++ 10 :: rest))) by (rewrite app_length; cbn [length]; lia).
-    destruct (txt ++ 10 :: rest) as [|c [|d t]] eqn:E; cbn [length] in Hl2; try lia.
-    cbn [app]. unfold classify. rewrite A10, A45. cbn [andb].
-    cbn [comment_re]. rewrite A35, Asp, B35, Bsp. reflexivity.
-  - apply andb_true_iff in Hpre as [H1 Hpre]. apply andb_true_iff in Hpre as [H2 Hpre]. apply andb_true_iff in Hpre as [H3 _].
-    destruct (hsp_facts p1 H1) as (A10 & A35 & A45 & A37 & Asp).
-    destruct (hsp_facts p2 H2) as (B10 & B35 & B45 & B37 & Bsp).
-    destruct (hsp_facts p3 H3) as (C10 & C35 & C45 & C37 & Csp).
-    cbn [app]. unfold classify. rewrite A10, A45. cbn [andb].
-    cbn [comment_re]. rewrite A35, Asp, B35, Bsp, C35, Csp. reflexivity.
+  intro Hpre. destruct pre as [|p1 pre'].
+  - exists 35, t. repeat split; reflexivity.
+  - cbn [forallb] in Hpre. apply andb_true_iff in Hpre as [H1 _].
+    exists p1, (pre' ++ 35 :: t). split; [reflexivity|].
+    unfold is_hsp in H1. repeat (apply orb_true_iff in H1 as [H1|H1]); apply N.eqb_eq in H1; subst p1; repeat split; reflexivity.
+Qed.
+
+Lemma classify_comment pre t :
+  (length pre <= 3)%nat -> forallb is_hsp pre = true -> classify (pre ++ 35 :: t) = Line.
+Proof.
+  intros Hlen Hpre. pose proof (window_comment pre t Hlen Hpre) as Hw.
+  destruct (comment_head pre t Hpre) as (a & r & E & A10 & A45 & _).
+  rewrite E in *. unfold classify. rewrite A10.
+  assert (Hs : forall x y z, str_eqb (firstn 4 (a :: r)) [45; x; y; z] = false).
+  { intros x y z. cbn [firstn str_eqb]. rewrite A45. reflexivity. }
+  unfold sep_sp, sep_nl. rewrite !Hs. cbn [orb]. rewrite Hw. reflexivity.
 Qed.
 
 Lemma render_cons h hs : render (h :: hs) = render_line h ++ render hs.
@@ -310,42 +298,36 @@ Proof. reflexivity. Qed.
 Lemma content_cons h hs : content_of (h :: hs) = content_line h ++ content_of hs.
 Proof. reflexivity. Qed.
 
-Lemma render_body_len hs body : (4 <= length body)%nat -> (4 <= length (render hs ++ body))%nat.
-Proof. intro H. rewrite app_length. lia. Qed.
-
 Lemma prs_header : forall hs body fuel sb,
   Forall (fun h => hline_ok h = true) hs -> body_ok body = true ->
   (length (render hs ++ body) < fuel)%nat ->
   prs fuel (render hs ++ body) sb = (sb ++ content_of hs, body).
 Proof.
   induction hs as [|h hs IH]; intros body fuel sb Hok Hbody Hfuel;
-    (destruct fuel as [|f]; [lia|]); unfold body_ok in Hbody;
-    apply andb_true_iff in Hbody as [Hlen Hstop]; apply Nat.leb_le in Hlen.
-  - cbn [render flat_map app content_of]. cbn [prs].
+    (destruct fuel as [|f]; [lia|]).
+  - unfold body_ok in Hbody. cbn [render flat_map app content_of]. cbn [prs].
     destruct (classify body); try discriminate. rewrite app_nil_r. reflexivity.
   - inversion Hok as [|? ? Hh Hhs]; subst.
-    assert (Hbody' : body_ok body = true).
-    { unfold body_ok. apply andb_true_iff. split; [apply Nat.leb_le; exact Hlen|exact Hstop]. }
-    pose proof (render_body_len hs body Hlen) as Hrest.
     rewrite render_cons, content_cons, <- app_assoc in *.
     destruct h as [| |pre txt].
     + (* blank line *)
-      cbn [render_line app] in *. destruct (first4 _ Hrest) as (a & b & c & d & t & E).
-      cbn [prs]. rewrite E. unfold classify. change (10 =? 10) with true. cbv iota. cbn [tl]. rewrite <- E.
-      rewrite IH; [|exact Hhs|exact Hbody'|cbn [length] in Hfuel; lia].
+      cbn [render_line app] in *. cbn [prs]. unfold classify. change (10 =? 10) with true. cbv iota. cbn [tl].
+      rewrite IH; [|exact Hhs|exact Hbody|cbn [length] in Hfuel; lia].
       cbn [content_line]. rewrite <- app_assoc. reflexivity.
     + (* separator line *)
-      cbn [render_line app] in *. cbn [prs]. unfold classify. cbn [skipn].
-      rewrite IH; [|exact Hhs|exact Hbody'|cbn [length] in Hfuel; lia].
+      cbn [render_line app] in *. cbn [prs]. unfold classify. cbn [firstn skipn].
+      change (45 =? 10) with false. change (str_eqb [45; 45; 45; 10] sep_sp) with false.
+      change (str_eqb [45; 45; 45; 10] sep_nl) with true. cbn [orb]. cbv iota.
+      rewrite IH; [|exact Hhs|exact Hbody|cbn [length] in Hfuel; lia].
       cbn [content_line]. rewrite <- !app_assoc. reflexivity.
     + (* comment line *)
-      cbn [hline_ok] in Hh. apply andb_true_iff in Hh as [Hh Hmark]. apply andb_true_iff in Hh as [Hh Htxt].
+      cbn [hline_ok] in Hh. apply andb_true_iff in Hh as [Hh Htxt].
       apply andb_true_iff in Hh as [Hplen Hpre]. apply Nat.leb_le in Hplen.
       cbn [render_line] in *. rewrite <- !app_assoc in *. cbn [app] in *. rewrite <- !app_assoc in *. cbn [app] in *.
-      cbn [prs]. rewrite (classify_comment pre txt (render hs ++ body) Hplen Hpre ltac:(lia)).
+      cbn [prs]. rewrite (classify_comment pre _ Hplen Hpre).
       change (pre ++ 35 :: txt ++ 10 :: render hs ++ body) with (pre ++ (35 :: txt) ++ 10 :: render hs ++ body).
       rewrite app_assoc, read_line_app.
-      * rewrite IH; [|exact Hhs|exact Hbody'|].
+      * rewrite IH; [|exact Hhs|exact Hbody|].
         -- cbn [content_line]. rewrite <- !app_assoc. cbn [app]. rewrite <- !app_assoc. reflexivity.
         -- rewrite !app_length in Hfuel. cbn [length] in Hfuel. rewrite !app_length in Hfuel.
            cbn [length] in Hfuel. rewrite app_length in *. lia.
@@ -357,11 +339,30 @@ Lemma marker_no_nl : forallb (fun c => negb (c =? 10)) marker = true.
 Proof. reflexivity. Qed.
 
 Lemma out_line_comment pre txt :
-  forallb is_hsp pre = true -> contains marker (pre ++ 35 :: txt ++ [10]) = false ->
+  forallb is_hsp pre = true ->
   out_line (pre ++ 35 :: txt ++ [10]) = pre ++ 35 :: txt ++ [10].
 Proof.
-  intros Hpre Hm. unfold out_line. rewrite Hm, (comment_re_pre pre _ Hpre).
-  rewrite !andb_false_r. reflexivity.
+  intros Hpre. unfold out_line.
+  destruct (comment_head pre (txt ++ [10]) Hpre) as (a & r & E & _ & _ & A36).
+  rewrite (comment_re_pre pre _ Hpre). rewrite E.
+  assert (Hm : forall m, str_eqb (a :: r) (36 :: m) = false) by (intro m; cbn [str_eqb]; rewrite A36; reflexivity).
+  unfold marker. cbn [app]. rewrite !Hm. cbn [orb]. rewrite !andb_false_r. reflexivity.
+Qed.
+
+(* a line of horizontal white space is printed as it is *)
+Lemma out_line_space pre : forallb is_hsp pre = true -> out_line (pre ++ [10]) = pre ++ [10].
+Proof.
+  intro Hpre. unfold out_line.
+  assert (Ht : forallb is_tsp (pre ++ [10]) = true).
+  { rewrite forallb_app. cbn [forallb]. change (is_tsp 10) with true. rewrite andb_true_r. cbn [andb].
+    clear -Hpre. induction pre as [|c r IH]; [reflexivity|]. cbn [forallb] in *. apply andb_true_iff in Hpre as [Hc Hr].
+    rewrite (IH Hr), andb_true_r. unfold is_hsp in Hc. unfold is_tsp.
+    repeat (apply orb_true_iff in Hc as [Hc|Hc]); apply N.eqb_eq in Hc; subst c; reflexivity. }
+  assert (Hm : forall m, str_eqb (pre ++ [10]) (36 :: m) = false).
+  { intro m. destruct pre as [|c r]; [reflexivity|]. cbn [forallb] in Hpre. apply andb_true_iff in Hpre as [Hc _].
+    cbn [app str_eqb]. unfold is_hsp in Hc.
+    repeat (apply orb_true_iff in Hc as [Hc|Hc]); apply N.eqb_eq in Hc; subst c; reflexivity. }
+  unfold marker. cbn [app]. rewrite !Hm, Ht. reflexivity.
 Qed.
 
 Lemma pl_header : forall hs fuel,
@@ -381,8 +382,8 @@ Proof.
       change ((marker ++ [10]) ++ content_of hs) with (marker ++ 10 :: content_of hs) in *.
       rewrite E. rewrite IH; [reflexivity|exact Hhs|].
       rewrite app_length in Hfuel. cbn [length] in Hfuel. lia.
-    + cbn [hline_ok] in Hh. apply andb_true_iff in Hh as [Hh Hmark]. apply andb_true_iff in Hh as [Hh Htxt].
-      apply andb_true_iff in Hh as [Hplen Hpre]. apply negb_true_iff in Hmark.
+    + cbn [hline_ok] in Hh. apply andb_true_iff in Hh as [Hh Htxt].
+      apply andb_true_iff in Hh as [Hplen Hpre].
       cbn [content_line render_line] in *.
       assert (Hnl : forallb (fun c => negb (c =? 10)) (pre ++ 35 :: txt) = true).
       { rewrite forallb_app, (hsp_no_nl _ Hpre). cbn [forallb]. exact Htxt. }
@@ -395,7 +396,7 @@ Proof.
         destruct ((pre ++ 35 :: txt) ++ 10 :: content_of hs) eqn:Em; [destruct pre; discriminate|]. reflexivity. }
       rewrite E.
       replace ((pre ++ 35 :: txt) ++ [10]) with (pre ++ 35 :: txt ++ [10]) by (rewrite <- app_assoc; reflexivity).
-      rewrite (out_line_comment pre txt Hpre Hmark).
+      rewrite (out_line_comment pre txt Hpre).
       rewrite IH; [reflexivity|exact Hhs|].
       rewrite app_length in Hfuel. cbn [length] in Hfuel. lia.
 Qed.
